@@ -113,6 +113,30 @@ func c07BuildPool(verifSeed int64) []*sbom.Document {
 		t := sbom.DocumentType_SBOMType(-6)
 		d.Metadata.DocumentTypes = []*sbom.DocumentType{{Type: &t}}
 	})
+	for _, ver := range []string{"99999999999999999999", "-1", "1e3", " 7 "} {
+		v := ver
+		h(func(d *sbom.Document) { d.Metadata.Version = v })
+	}
+	for _, typ := range []sbom.Edge_Type{sbom.Edge_contains, sbom.Edge_dependsOn} {
+		// diamond lattice: 2^24 paths from the root, 50 nodes (an implementation that walks paths, not nodes, never returns)
+		t := typ
+		h(func(d *sbom.Document) {
+			g := gen.New(r.Int63(), gen.Profile{Serialisable: true, Tag: "lat"})
+			d.NodeList = &sbom.NodeList{}
+			id := func(l, k int) string { return fmt.Sprintf("SPDXRef-lat-%d-%d", l, k) }
+			d.NodeList.Nodes = append(d.NodeList.Nodes, g.Node("SPDXRef-lat-root"))
+			d.NodeList.RootElements = []string{"SPDXRef-lat-root"}
+			d.NodeList.Edges = append(d.NodeList.Edges, &sbom.Edge{Type: sbom.Edge_contains, From: "SPDXRef-lat-root", To: []string{id(0, 0), id(0, 1)}})
+			for l := 0; l < 24; l++ {
+				for k := 0; k < 2; k++ {
+					d.NodeList.Nodes = append(d.NodeList.Nodes, &sbom.Node{Id: id(l, k), Name: id(l, k), Type: sbom.Node_PACKAGE})
+					if l < 23 {
+						d.NodeList.Edges = append(d.NodeList.Edges, &sbom.Edge{Type: t, From: id(l, k), To: []string{id(l+1, 0), id(l+1, 1)}})
+					}
+				}
+			}
+		})
+	}
 	h(func(d *sbom.Document) { // a root listed twice, an edge without ends, thousands of targets and roots
 		d.NodeList.RootElements = append(d.NodeList.RootElements, d.NodeList.RootElements...)
 		d.NodeList.Edges = append(d.NodeList.Edges, &sbom.Edge{Type: sbom.Edge_contains, From: "", To: []string{""}})
